@@ -246,6 +246,13 @@ class Core:
             if l.sort == v.s:
                 st.assume(S.lift(l.stmt(v)).t)
 
+    def track_deep(self, st, v, depth=0):
+        if isinstance(v.s, Seq):
+            self.track(st, v)
+        elif isinstance(v.s, Tup) and depth < 3:
+            for i in range(len(v.s.elems)):
+                self.track_deep(st, v.s.get(v, i), depth + 1)
+
     def note_concat(self, st, whole, parts):
         """whole == concat(parts); parts: list of ('seq', V) | ('unit', Velem).
         Adds the decomposition fact and the fold homomorphism instances."""
@@ -261,6 +268,7 @@ class Core:
             vals = []
             for (k, p), t in zip(parts, terms):
                 if k == "unit":
+                    self.track_deep(st, p)
                     ev = S.lift(f.elem(p))
                     st.assume(f.f(t) == ev.t)
                 vals.append(f.f(t))
